@@ -293,3 +293,37 @@ func Harness_C15_concurrentLookups() {
 	}
 	zzsym.Reach("apq.lookups")
 }
+
+// pairs of texts whose SHA-256 hex strings (the registry's keys) collide under the 32-bit checksums of the standard library
+// (CRC-32 IEEE / Castagnoli, FNV-1a / FNV-1, Adler-32), found by search: whatever the registry does with its keys, a hash
+// resolves only to the text with that SHA-256
+var c15Colliding = [][2]string{
+	{"{ q38770: me { name } }", "{ q69095: me { name } }"},
+	{"{ q11716: me { name } }", "{ q78912: me { name } }"},
+	{"{ q22058: me { name } }", "{ q92842: me { name } }"},
+	{"{ q129789: me { name } }", "{ q144367: me { name } }"},
+	{"{ q1062: me { name } }", "{ q2927: me { name } }"},
+}
+
+// Harness_C15_collidingKeys: both texts of such a pair are registered (each
+// with its own hash) in the real LRU; then each hash is sent alone, in
+// either order: it resolves to its own text.
+func Harness_C15_collidingKeys() {
+	pair := c15Colliding[zzsym.Choice("pair", len(c15Colliding))]
+	a := AutomaticPersistedQuery{Cache: lru.New[string](100)}
+	send := func(text, hash string) (string, *gqlerror.Error) {
+		ctx := graphql.WithOperationContext(context.Background(), &graphql.OperationContext{})
+		p := &graphql.RawParams{Query: text, Extensions: map[string]any{"persistedQuery": map[string]any{"version": 1, "sha256Hash": hash}}}
+		err := a.MutateOperationParameters(ctx, p)
+		return p.Query, err
+	}
+	first := zzsym.Choice("registeredFirst", 2)
+	for _, k := range []int{first, 1 - first} {
+		_, err := send(pair[k], c15Hash(pair[k]))
+		zzsym.Assert(err == nil, "a text with its own hash is accepted")
+	}
+	asked := zzsym.Choice("asked", 2)
+	got, err := send("", c15Hash(pair[asked]))
+	zzsym.Assert(err == nil && got == pair[asked], "a hash resolves to the text with that SHA-256, not to another registered text")
+	zzsym.Reach("apq.colliding")
+}
